@@ -3,6 +3,12 @@
 import json, sys
 pid, name = sys.argv[1], sys.argv[2]
 n = int(sys.argv[3]) if len(sys.argv) > 3 else 2
+# optional 4th argument "interaction": a generic steer (not derived from anything in /verif) towards less obvious sites
+steer = ""
+if len(sys.argv) > 4 and sys.argv[4] == "interaction":
+    steer = """
+For this round: at least one of your changes must live in an INTERACTION rather than in a single formula - between two calls on one object, between two objects or two stages of the pipeline, between the library and its environment (files, the process, configuration objects that outlive a call, the dtype / memory layout / length of the arrays passed in), or between two edits that are each harmless alone. And at least one must sit at a code site that is NOT the most obvious function for this property: a helper, decorator or utility it depends on, the wiring in compute.py or the command line, a constructor, or a data-handling routine.
+"""
 p = [json.loads(l) for l in open('/verif/properties.jsonl') if l.strip()]
 p = [x for x in p if x['id'] == pid][0]
 wt = f"/tmp/wt/{name}"
@@ -29,7 +35,7 @@ Your task: produce {n} DIFFERENT, independent changes to the project source (und
   (c) looks like a plausible mistake or 'optimisation/refactor' a developer could make (small: a few lines), and
   (d) needs something SPECIFIC to manifest — an unusual or boundary input, a particular configuration value, a multi-step call sequence/history, a particular batch composition or size, a particular interleaving/ordering, a fault at a particular point, or two cooperating edits that each look fine alone — NOT something that ordinary default use would expose at once. Prefer subtle changes over blatant ones. Do not merely delete a whole feature, and do not change only comments/docstrings.
 Make the {n} changes different in kind (e.g. different clause of the property, different code site).
-
+{steer}
 If the property statement describes behaviour the current code already violates for some input, do not rely on that existing failure: your change must introduce a NEW failure that is absent at HEAD.
 
 For each change k = 1..{n} deliver in {out}/k/:
